@@ -243,6 +243,15 @@ func (g *gen) yieldStmt() {
 	}
 }
 
+// yieldStmtAlways places a suspension site (when the feature is on).
+func (g *gen) yieldStmtAlways() {
+	if g.f.Yield && g.noYield == 0 {
+		g.w("yield(%d)", g.nsite)
+		g.nsite++
+		g.kind("yield-stmt")
+	}
+}
+
 // block generates n statements.
 func (g *gen) block(n int) {
 	for i := 0; i < n && g.budget > 0; i++ {
@@ -256,7 +265,7 @@ func (g *gen) block(n int) {
 func (g *gen) stmt() {
 	g.budget--
 	g.yieldStmt()
-	max := 31
+	max := 32
 	if g.depth >= 3 {
 		max = 9 // only simple statements when nested deeply
 	}
@@ -492,6 +501,33 @@ func (g *gen) stmt() {
 		}
 		g.w("}")
 		g.depth--
+	case 32:
+		// a loop that suspends in its body around a switch that does not: continue and break inside
+		// the switch act on the loop and on the switch
+		g.kind("loop-switch-continue")
+		g.w("for k := 0; k < %d; k++ {", g.ir(3, 5, "lscn"))
+		g.indent++
+		g.yieldStmtAlways()
+		g.w("i3 = lim(i3 + k)")
+		g.w("switch %s {", g.pick("lsctag", "k % 3", "(k + i0) % 3", "k & 1"))
+		g.w("case 1:")
+		g.w("\ti2 = lim(i2 + 10)")
+		g.w("\tcontinue")
+		g.w("case 2:")
+		g.w("\ti2 = lim(i2 + 100)")
+		g.w("\tif k > 1 {")
+		g.w("\t\tbreak")
+		g.w("\t}")
+		g.w("\ti2 = lim(i2 + 1000)")
+		g.w("default:")
+		g.w("\ti1 = lim(i1 + 1)")
+		g.w("}")
+		g.w("i1 = lim(i1 + k*7)")
+		if g.ir(0, 1, "lsctail") == 0 {
+			g.yieldStmtAlways()
+		}
+		g.indent--
+		g.w("}")
 	case 31:
 		// shifts by constant counts around the operand width, overlapping copies of struct elements
 		g.kind("width-shift-overlap-copy")
